@@ -109,6 +109,9 @@ func TopTypes(s *tlmini.Schema) []*tlmini.Ty {
 // Bool magic): up to two such byte strings per value. What a decoder must do with them is decided by the schema
 // semantics (spec ops): refuse prefix 255 and unknown Bool magics, accept non-canonical long forms and any padding.
 func malformed(g *h.G, enc func() ([]byte, error)) [][]byte {
+	if noMalformed {
+		return nil
+	}
 	tlmini.Malform = tlmini.MalformPlan{}
 	enc()
 	leaves := tlmini.Malform.Seen
@@ -124,11 +127,58 @@ func malformed(g *h.G, enc func() ([]byte, error)) [][]byte {
 	return out
 }
 
+// noMalformed: set by EmitCases for schemas that declare a vector whose items occupy ZERO bytes (a constructor without
+// fields): after a malformed leaf the decoders may read a garbage count for such a vector, and a count of up to 2^32
+// items that consume no input is legitimately decodable by the TL rules but takes tl.decodeVector minutes (and the
+// model's structural decoder a stack of that depth) - recorded separately by the oracle go.tl.zerovec.
+var noMalformed bool
+
+func zeroSize(s *tlmini.Schema, t *tlmini.Ty, depth int) bool {
+	if depth > 8 {
+		return false
+	}
+	switch t.Kind {
+	case tlmini.KTrue:
+		return true
+	case tlmini.KBare:
+		d := s.Ctor(t.Name)
+		if d == nil {
+			return false
+		}
+		for i := range d.Fields {
+			if !zeroSize(s, d.Fields[i].Ty, depth+1) {
+				return false
+			}
+		}
+		return true
+	}
+	return false
+}
+
+func hasZeroSizeVector(s *tlmini.Schema) bool {
+	var in func(t *tlmini.Ty) bool
+	in = func(t *tlmini.Ty) bool {
+		return t.Kind == tlmini.KVector && (zeroSize(s, t.Item, 0) || in(t.Item))
+	}
+	for _, d := range append(append([]*tlmini.Decl{}, s.Types...), s.Funcs...) {
+		for i := range d.Fields {
+			if in(d.Fields[i].Ty) {
+				return true
+			}
+		}
+	}
+	return false
+}
+
 // EmitCases writes, for every type in tys and every function of the schema, n random values each with the operations
 // tl.enc / tl.dec / go.tl.roundtrip, tl.fenc / tl.fdec / <reqOp> / tl.reqdec / tl.ans. `key` prefixes the non-trivial
 // case identity (schema id); whole != "": every line carries that (raw) text of the whole schema instead of the declarations it needs.
 func EmitCases(g *h.G, s *tlmini.Schema, tys []*tlmini.Ty, n int, reqOp, key string, whole string) {
 	gen := &tlmini.Gen{R: g.Rng, S: s, MaxVec: 50, Len: LengthPlan(g), Mode: ModePlan(g)}
+	noMalformed = hasZeroSizeVector(s)
+	if noMalformed {
+		g.Count("schemas_without_malformed_cases")
+	}
 	junk := func() string {
 		if g.Rng.Intn(3) == 0 {
 			return "-"
